@@ -9,6 +9,9 @@
    hx_silk pitch                        silk_decode_pitch over the whole index domain
    hx_silk nlsf   <seed> <nrand> <full> silk_NLSF_decode (+NLSF2A, inverse prediction gain measured)
    hx_silk stab   <seed> <n>            silk_NLSF_stabilize on synthetic vectors (reference model only)
+   hx_silk nlsfenc <seed> <n>           silk_NLSF_encode on synthetic vectors, then silk_NLSF_decode on the emitted indices
+   hx_silk pitchenc <seed> <n>          silk_pitch_analysis_core_FLP on synthetic voiced frames (float builds): its lags vs its indices
+   hx_silk indices <seed> <npackets>    silk_decode_indices on random range-coder input (then silk_decode_parameters on the result)
    hx_silk dparams <seed> <npackets>    silk_decode_parameters on a decoder state, chained frames
    hx_silk replay                       re-executes the events given on stdin (inputs only are used) */
 #include "hx_common.h"
@@ -16,6 +19,10 @@
 #include "SigProc_FIX.h"
 #include "pitch_est_defines.h"
 #include "tables.h"
+#include "entdec.h"
+#ifndef FIXED_POINT
+#include "SigProc_FLP.h"
+#endif
 
 /* ------------------------------------------------------------------------------------------ */
 /* tables */
@@ -168,6 +175,55 @@ static void exec_ns(int cb, const int *inp)
    js_open("ns"); js_int("cb", cb); js_arr_i("inp", inp, o); js_arr_i("out", out, o); js_close();
 }
 
+/* encoder side: silk_NLSF_encode (weights as the encoder computes them), then the decoder on what it emitted */
+static int exec_ne(int cb, const int *inp, int mu, int surv, int st)
+{
+   const silk_NLSF_CB_struct *c; int o, k, ix[MAX_LPC_ORDER + 1], qe[MAX_LPC_ORDER], qd[MAX_LPC_ORDER];
+   opus_int16 v[MAX_LPC_ORDER], w[MAX_LPC_ORDER], d[MAX_LPC_ORDER]; opus_int8 i8[MAX_LPC_ORDER + 1];
+   if ((cb != 0 && cb != 1) || mu < 1 || mu > 32767 || surv < 1 || surv > 32 || st < 0 || st > 2) return 0;
+   c = cb_of(cb); o = c->order;
+   for (k = 0; k < o; k++) { if (inp[k] < 0 || inp[k] > 32767 || (k > 0 && inp[k] < inp[k - 1])) return 0; v[k] = (opus_int16)inp[k]; }
+   memset(i8, 0x55, sizeof i8);
+   silk_NLSF_VQ_weights_laroia(w, v, o);
+   silk_NLSF_encode(i8, v, c, w, mu, surv, st);
+   silk_NLSF_decode(d, i8, c);
+   for (k = 0; k <= o; k++) ix[k] = i8[k];
+   for (k = 0; k < o; k++) { qe[k] = v[k]; qd[k] = d[k]; }
+   js_open("ne"); js_int("cb", cb); js_arr_i("inp", inp, o); js_int("mu", mu); js_int("sv", surv); js_int("st", st);
+   js_arr_i("ix", ix, o + 1); js_arr_i("qe", qe, o); js_arr_i("qd", qd, o); js_close();
+   return 1;
+}
+
+#ifndef FIXED_POINT
+/* encoder side: the pitch analyser returns both the lags it will use and the indices it will send.
+   The frame is synthesised here from (seed, period, drift, noise): a harmonic-rich pulse train whose period drifts. */
+static int exec_pa(int fs, int nb, int cx, int plag, int per_q4, int drift_q4, int noise, unsigned seed)
+{
+   static silk_float frame[(PE_LTP_MEM_LENGTH_MS + PE_MAX_NB_SUBFR * PE_SUBFR_LENGTH_MS) * PE_MAX_FS_KHZ];
+   int n, len, k, po[MAX_NB_SUBFR], ret; opus_int pitch_out[MAX_NB_SUBFR + 1]; opus_int16 li = -999; opus_int8 ci = -99; silk_float corr = 0.0f;
+   hx_rng r; double phase = 0.0, per;
+   if ((fs != 8 && fs != 12 && fs != 16) || (nb != 2 && nb != 4) || cx < 0 || cx > 2 || per_q4 < 16 * 2 || per_q4 > 16 * 400 || noise < 0 || noise > 30000) return 0;
+   if (plag < 0 || plag > 18 * fs || drift_q4 < -400 || drift_q4 > 400) return 0;
+   len = (PE_LTP_MEM_LENGTH_MS + nb * PE_SUBFR_LENGTH_MS) * fs;
+   r.s = seed;
+   for (n = 0; n < len; n++) {
+      double s;
+      per = (per_q4 + (double)drift_q4 * n / len) / 16.0; if (per < 2.0) per = 2.0;
+      phase += 1.0 / per; if (phase >= 1.0) phase -= 1.0;
+      s = 6000.0 * (1.0 - 2.0 * phase) + (phase < 0.08 ? 9000.0 : 0.0);            /* sawtooth plus a pulse */
+      s += noise * (hx_unit(&r) - 0.5) * 2.0;
+      frame[n] = (silk_float)(int)s;
+   }
+   for (k = 0; k <= MAX_NB_SUBFR; k++) pitch_out[k] = -777;
+   ret = silk_pitch_analysis_core_FLP(frame, pitch_out, &li, &ci, &corr, plag, 0.7f, 0.3f, fs, cx, nb, 0);
+   for (k = 0; k < nb; k++) po[k] = pitch_out[k];
+   js_open("pa"); js_int("fs", fs); js_int("n", nb); js_int("cx", cx); js_int("plag", plag); js_int("per", per_q4); js_int("dr", drift_q4);
+   js_int("nz", noise); js_int("seed", (long)seed); js_int("v", ret == 0); js_arr_i("po", po, nb); js_int("li", li); js_int("ci", ci);
+   js_close();
+   return 1;
+}
+#endif
+
 /* silk_decode_parameters on a decoder state set up exactly as silk_decoder_set_fs leaves it, with the
    inter-frame references and the indices written directly (what silk_decode_indices would have stored) */
 typedef struct {
@@ -175,6 +231,7 @@ typedef struct {
 } dp_in;
 
 static silk_decoder_state g_dec; static int g_dec_fs = 0, g_dec_nb = 0;
+static void ensure_dec(int fs, int nb);
 
 static int exec_dp(const dp_in *in, int *out_q, int *out_lg)
 {
@@ -185,12 +242,7 @@ static int exec_dp(const dp_in *in, int *out_q, int *out_lg)
    if (in->ip < 0 || in->ip > 4 || (in->nb == 2 && in->ip != 4) || (in->ffr != 0 && in->ffr != 1) || in->st < 0 || in->st > 2) return 0;
    if (!in->ffr && !nlsf_vec_ok(in->fs == 16, in->pn)) return 0;
    if (in->st == TYPE_VOICED && (in->ci < 0 || in->ci >= n_contours(in->fs, in->nb) || in->li < -32768 || in->li > 32767)) return 0;
-   if (g_dec_fs != in->fs || g_dec_nb != in->nb) {
-      silk_init_decoder(&g_dec);
-      g_dec.nb_subfr = in->nb;
-      silk_decoder_set_fs(&g_dec, in->fs, 48000);
-      g_dec_fs = in->fs; g_dec_nb = in->nb;
-   }
+   ensure_dec(in->fs, in->nb);
    o = g_dec.LPC_order;
    memset(&g_dec.indices, 0, sizeof g_dec.indices);
    memset(&ctrl, 0x55, sizeof ctrl);
@@ -218,6 +270,66 @@ static int exec_dp(const dp_in *in, int *out_q, int *out_lg)
    if (out_q) for (k = 0; k < o; k++) out_q[k] = q[k];
    if (out_lg) *out_lg = g_dec.LastGainIndex;
    return 1;
+}
+
+static void ensure_dec(int fs, int nb)
+{
+   if (g_dec_fs != fs || g_dec_nb != nb) {
+      silk_init_decoder(&g_dec);
+      g_dec.nb_subfr = nb;
+      silk_decoder_set_fs(&g_dec, fs, 48000);
+      g_dec_fs = fs; g_dec_nb = nb;
+   }
+}
+
+/* silk_decode_indices for frames 0..upto of one packet (range decoder over the given bytes, pulses are not decoded:
+   any position of an arbitrary byte string is an arbitrary bitstream); records frame `only` (or all if only < 0).
+   If chain != NULL the decoded indices are also run through silk_decode_parameters with the carried references. */
+typedef struct { int prevq[MAX_LPC_ORDER], lg, ffr; } dp_chain;
+static int exec_di(int fs, int nb, const unsigned char *buf, int len, int nframes, const int *ccs, const int *vads, int only, dp_chain *chain, int loss)
+{
+   ec_dec dec; int f, k, o, done = 0; unsigned char *b;
+   if ((fs != 8 && fs != 12 && fs != 16) || (nb != 2 && nb != 4) || nframes < 1 || nframes > MAX_FRAMES_PER_PACKET || len < 1) return 0;
+   for (f = 0; f < nframes; f++) if (ccs[f] < 0 || ccs[f] > 2 || (f == 0 && ccs[f] == CODE_CONDITIONALLY)) return 0;
+   ensure_dec(fs, nb);
+   o = g_dec.LPC_order;
+   b = hx_exact(buf, len);
+   ec_dec_init(&dec, b, len);
+   g_dec.ec_prevSignalType = 0; g_dec.ec_prevLagIndex = 0;
+   for (f = 0; f < nframes; f++) {
+      int pli, pst, gi[MAX_NB_SUBFR], ix[MAX_LPC_ORDER + 1];
+      g_dec.VAD_flags[f] = vads[f] != 0;
+      memset(&g_dec.indices, 0, sizeof g_dec.indices);
+      pli = g_dec.ec_prevLagIndex; pst = g_dec.ec_prevSignalType;
+      silk_decode_indices(&g_dec, &dec, f, 0, ccs[f]);
+      for (k = 0; k < nb; k++) gi[k] = g_dec.indices.GainsIndices[k];
+      for (k = 0; k <= o; k++) ix[k] = g_dec.indices.NLSFIndices[k];
+      if (only < 0 || only == f) {
+         js_open("di"); js_int("fs", fs); js_int("n", nb); js_int("f", f); js_int("cc", ccs[f]); js_arr_i("ccs", ccs, nframes); js_arr_i("vads", vads, nframes);
+         js_hex("hex", b, len); js_int("pli", pli); js_int("pst", pst);
+         js_int("st", g_dec.indices.signalType); js_arr_i("gi", gi, nb); js_arr_i("ix", ix, o + 1); js_int("ip", g_dec.indices.NLSFInterpCoef_Q2);
+         js_int("li", g_dec.indices.lagIndex); js_int("ci", g_dec.indices.contourIndex);
+         js_int("oli", g_dec.ec_prevLagIndex); js_int("ost", g_dec.ec_prevSignalType); js_int("err", dec.error);
+         js_close(); done++;
+      }
+      if (chain) {
+         dp_in in; memset(&in, 0, sizeof in);
+         in.fs = fs; in.nb = nb; in.cc = ccs[f]; in.lg = chain->lg; in.ffr = chain->ffr; in.loss = f == 0 ? loss : 0;
+         for (k = 0; k < nb; k++) in.gi[k] = gi[k];
+         for (k = 0; k <= o; k++) in.ix[k] = ix[k];
+         in.ip = g_dec.indices.NLSFInterpCoef_Q2; in.st = g_dec.indices.signalType; in.li = g_dec.indices.lagIndex; in.ci = g_dec.indices.contourIndex;
+         for (k = 0; k < o; k++) in.pn[k] = chain->prevq[k];
+         {  /* exec_dp rewrites g_dec.indices; the entropy-decoding references live outside it */
+            if (exec_dp(&in, chain->prevq, &chain->lg)) {
+               chain->ffr = 0;
+               if (chain->lg < 0 || chain->lg >= N_LEVELS_QGAIN) chain->lg = 10;
+               if (!nlsf_vec_ok(o == 16, chain->prevq)) { chain->ffr = 1; memset(chain->prevq, 0, sizeof chain->prevq); }
+            }
+         }
+      }
+   }
+   free(b);
+   return done;
 }
 
 /* ------------------------------------------------------------------------------------------ */
@@ -373,6 +485,63 @@ static void cmd_stab(hx_rng *r, int n)
    }
 }
 
+static void cmd_nlsfenc(hx_rng *r, int n)
+{
+   /* inputs as an LPC analysis delivers them: sorted vectors in the neighbourhood of what the codebook can represent
+      (a decodable vector plus a perturbation).  Vectors far from every codebook entry are not offered: the encoder's
+      rate-distortion bookkeeping is outside this property. */
+   int it, k, v[MAX_LPC_ORDER];
+   for (it = 0; it < n; it++) {
+      int cb = hx_u(r, 2), o = cb_of(cb)->order, j, amp = hx_u(r, 3) ? hx_range(r, 0, 120) : hx_range(r, 0, 500), mode = hx_u(r, 4);
+      opus_int8 i8[MAX_LPC_ORDER + 1]; opus_int16 base[MAX_LPC_ORDER];
+      i8[0] = (opus_int8)hx_range(r, 0, 31);
+      for (k = 1; k <= o; k++) i8[k] = (opus_int8)rnd_res(r, mode == 0 ? 3 : mode);
+      silk_NLSF_decode(base, i8, cb_of(cb));
+      for (k = 0; k < o; k++) { v[k] = base[k] + hx_range(r, -amp, amp); if (v[k] < 0) v[k] = 0; if (v[k] > 32767) v[k] = 32767; }
+      for (k = 1; k < o; k++) { int x = v[k]; for (j = k - 1; j >= 0 && v[j] > x; j--) v[j + 1] = v[j]; v[j + 1] = x; }   /* A2NLSF output is sorted */
+      exec_ne(cb, v, hx_range(r, 1500, 5000), hx_range(r, 2, 16), hx_range(r, 0, 2));
+   }
+}
+
+static void cmd_pitchenc(hx_rng *r, int n)
+{
+#ifndef FIXED_POINT
+   static const int fss[3] = {8, 12, 16}; int it;
+   for (it = 0; it < n; it++) {
+      int fs = fss[hx_u(r, 3)], nb = hx_u(r, 3) ? 4 : 2, cx = hx_range(r, 0, 2);
+      int lag = hx_u(r, 6) ? hx_range(r, 2 * fs, 18 * fs) : (hx_u(r, 2) ? hx_range(r, 2 * fs - 6, 2 * fs + 4) : hx_range(r, 18 * fs - 4, 18 * fs + 12));
+      int per = lag * 16 + hx_range(r, -8, 8), drift = hx_u(r, 3) ? hx_range(r, -120, 120) : 0;
+      if (per < 32) per = 32;
+      exec_pa(fs, nb, cx, hx_u(r, 2) ? 0 : hx_range(r, 2 * fs, 18 * fs), per, drift, hx_u(r, 4) ? hx_range(r, 0, 600) : hx_range(r, 0, 8000), (unsigned)hx_next(r) & 0x7fffffff);
+   }
+#else
+   (void)r; (void)n;
+#endif
+}
+
+static void cmd_indices(hx_rng *r, int npackets)
+{
+   static const int fss[3] = {8, 12, 16}; static unsigned char buf[256];
+   int cfg, pk, k;
+   for (cfg = 0; cfg < 6; cfg++) {
+      int fs = fss[cfg % 3], nb = cfg < 3 ? 4 : 2; dp_chain ch;
+      memset(&ch, 0, sizeof ch); ch.lg = 10; ch.ffr = 1;
+      for (pk = 0; pk < npackets; pk++) {
+         int len = hx_range(r, 2, 160), mode = hx_u(r, 6), nframes = hx_range(r, 1, 3), ccs[3], vads[3];
+         for (k = 0; k < len; k++) {
+            unsigned v = hx_u(r, 256);
+            if (mode == 1 && hx_u(r, 3)) v = 0xFF;            /* long runs of the last symbols */
+            if (mode == 2 && hx_u(r, 3)) v = 0x00;            /* long runs of the first symbols */
+            if (mode == 3) v = (k & 1) ? 0xFF : 0x00;
+            buf[k] = (unsigned char)v;
+         }
+         for (k = 0; k < 3; k++) { ccs[k] = k == 0 ? (hx_u(r, 4) ? CODE_INDEPENDENTLY : CODE_INDEPENDENTLY_NO_LTP_SCALING) : (hx_u(r, 6) ? CODE_CONDITIONALLY : CODE_INDEPENDENTLY); vads[k] = hx_u(r, 4) != 0; }
+         if (hx_u(r, 50) == 0) { memset(&ch, 0, sizeof ch); ch.lg = 10; ch.ffr = 1; }
+         exec_di(fs, nb, buf, len, nframes, ccs, vads, -1, &ch, hx_u(r, 6) == 0);
+      }
+   }
+}
+
 static void cmd_dparams(hx_rng *r, int npackets)
 {
    static const int fss[3] = {8, 12, 16};
@@ -440,6 +609,20 @@ static void cmd_replay(void)
          int cb = jint(ln, "cb", -1), n = jarr(ln, "ix", a, 17);
          if ((cb == 0 || cb == 1) && n == cb_of(cb)->order + 1) exec_nd(cb, a);
       }
+      else if (!strncmp(k, "\"di\"", 4)) {
+         int ccs[3], vads[3], nf = jarr(ln, "ccs", ccs, 3), nv = jarr(ln, "vads", vads, 3), len = 0; static unsigned char hb[4096];
+         const char *h = jfind(ln, "hex");
+         if (h && *h == '"') { unsigned v; h++; while (len < (int)sizeof hb && sscanf(h, "%2x", &v) == 1 && h[0] != '"' && h[1] != '"') { hb[len++] = (unsigned char)v; h += 2; } }
+         if (nf == nv && nf >= 1 && jint(ln, "f", -1) >= 0 && jint(ln, "f", -1) < nf) exec_di(jint(ln, "fs", 0), jint(ln, "n", 0), hb, len, nf, ccs, vads, jint(ln, "f", -1), NULL, 0);
+      }
+      else if (!strncmp(k, "\"ne\"", 4)) {
+         int cb = jint(ln, "cb", -1), n = jarr(ln, "inp", a, 16);
+         if ((cb == 0 || cb == 1) && n == cb_of(cb)->order) exec_ne(cb, a, jint(ln, "mu", 0), jint(ln, "sv", 0), jint(ln, "st", -1));
+      }
+#ifndef FIXED_POINT
+      else if (!strncmp(k, "\"pa\"", 4))
+         exec_pa(jint(ln, "fs", 0), jint(ln, "n", 0), jint(ln, "cx", -1), jint(ln, "plag", -1), jint(ln, "per", 0), jint(ln, "dr", 9999), jint(ln, "nz", -1), (unsigned)jint(ln, "seed", 0));
+#endif
       else if (!strncmp(k, "\"ns\"", 4)) {
          int cb = jint(ln, "cb", 0) != 0, n = jarr(ln, "inp", a, 16), j, ok = n == cb_of(cb)->order;
          for (j = 0; j < n; j++) if (a[j] < 0 || a[j] > 32767) ok = 0;
@@ -466,8 +649,11 @@ int main(int argc, char **argv)
    else if (!strcmp(cmd, "pitch")) cmd_pitch();
    else if (!strcmp(cmd, "nlsf")) cmd_nlsf(&r, argc > 3 ? atoi(argv[3]) : 10, argc > 4 ? atoi(argv[4]) : 0);
    else if (!strcmp(cmd, "stab")) cmd_stab(&r, argc > 3 ? atoi(argv[3]) : 1000);
+   else if (!strcmp(cmd, "nlsfenc")) cmd_nlsfenc(&r, argc > 3 ? atoi(argv[3]) : 1000);
+   else if (!strcmp(cmd, "pitchenc")) cmd_pitchenc(&r, argc > 3 ? atoi(argv[3]) : 1000);
+   else if (!strcmp(cmd, "indices")) cmd_indices(&r, argc > 3 ? atoi(argv[3]) : 100);
    else if (!strcmp(cmd, "dparams")) cmd_dparams(&r, argc > 3 ? atoi(argv[3]) : 100);
    else if (!strcmp(cmd, "replay")) cmd_replay();
-   else { fprintf(stderr, "usage: hx_silk tables|gains|gquant|pitch|nlsf|stab|dparams|replay ...\n"); return 64; }
+   else { fprintf(stderr, "usage: hx_silk tables|gains|gquant|pitch|nlsf|stab|nlsfenc|pitchenc|indices|dparams|replay ...\n"); return 64; }
    return 0;
 }
